@@ -233,14 +233,19 @@ def groups_case(col, rng):
     for how in ("copy_false", "copy_true", "deepcopy"):
         a = lsl.param(np.float32(0.3), lsl.Dist(tfd.Normal, loc=0.0, scale=2.0), name="a")
         b = lsl.Var(lsl.Calc(lambda x: jnp.asarray(x) * 2.0, a), name="b")
+        r = lsl.Var(np.float32(7.0), name="r")  # members that nothing else in the builder leads to
+        nb = lsl.Calc(lambda: 1.0, _name="n_bare")
         gb = lsl.GraphBuilder().add(b)
-        gb.add_groups(lsl.Group("grp", a=a, b=b))
+        gb.add_groups(lsl.Group("grp", a=a, b=b, r=r, n=nb))
         m = gb.build_model(copy=(how == "copy_true"))
+        if "r" not in m.vars or "n_bare" not in m.nodes:
+            col.add({"sig": "native::structure::groups", "what": f"{how}: members of an added group are missing from the model: vars {sorted(m.vars)}, 'n_bare' in nodes: {'n_bare' in m.nodes}", "input": {"build": how}})
+            continue
         if how == "deepcopy":
             m = copy.deepcopy(m)
         g = m.groups().get("grp")
         bad = None
-        if g is None or sorted(g.vars) != ["a", "b"]:
+        if g is None or sorted(g.vars) != ["a", "b", "r"]:
             bad = "group missing or members missing"
         elif g["a"] is not m.vars["a"] or g["b"] is not m.vars["b"]:
             bad = "group member is not the variable held by the model"
